@@ -453,6 +453,12 @@ package circuitbreaker
 //@   ensures [C04.record.permit_back] k0 == HalfOpenState ==> hs.permittedExecutions == old(hs.permittedExecutions) + 1
 //@   ensures [C03.record.open_ignores] k0 == OpenState ==> cb.state == old(cb.state)
 //@   ensures [C03.record.success_keeps_closed] k0 == ClosedState ==> kindOf(cb.state) == ClosedState || kindOf(cb.state) == OpenState
+//@   oldlet nchk := 0
+//@   oldlet cs := asref(cb.state, *closedState)
+//@   oldlet recd := 0
+//@   oncall (*closedState).checkThresholdAndReleasePermit: nchk := nchk + 1; recd := ncalls(cs.stats.recordSuccess)
+//@   ensures [C03.record.success_checks_the_thresholds] k0 == ClosedState ==> nchk == 1
+//@   ensures [C03.record.success_is_recorded_before_the_check] k0 == ClosedState ==> recd == 1
 //@   ensures [C03.record.wf] stateWF(cb)
 //@   havoc
 //@   modifies cb.state, alloftype(halfOpenState), alloftype(countingStats), alloftype(timedStats), alloftype(stat), alloftype(bitset.BitSet), calls(cb.openListener), calls(cb.closeListener), calls(cb.stateChangedListener), calls(cb.DelayFunc), methodcalls
@@ -466,6 +472,12 @@ package circuitbreaker
 //@   oldlet k0 := kindOf(cb.state)
 //@   ensures [C04.record.permit_back_on_failure] k0 == HalfOpenState ==> hs.permittedExecutions == old(hs.permittedExecutions) + 1
 //@   ensures [C03.record.open_ignores_failure] k0 == OpenState ==> cb.state == old(cb.state)
+//@   oldlet nchk := 0
+//@   oldlet cs := asref(cb.state, *closedState)
+//@   oldlet recd := 0
+//@   oncall (*closedState).checkThresholdAndReleasePermit: nchk := nchk + 1; recd := ncalls(cs.stats.recordFailure)
+//@   ensures [C03.record.failure_checks_the_thresholds] k0 == ClosedState ==> nchk == 1
+//@   ensures [C03.record.failure_is_recorded_before_the_check] k0 == ClosedState ==> recd == 1
 //@   ensures [C03.record.open_delay] k0 != OpenState && typeis(cb.state, *openState) ==> asref(cb.state, *openState).delay == openDelayFor(cb, exec) && delayFuncAsked(cb, exec)
 //@   ensures [C03.record.wf_failure] stateWF(cb)
 //@   havoc
